@@ -12,7 +12,7 @@ Faithful on purpose (these are what the emitted code relies on):
   * the operand stack survives jumps; bin_op / if_stmt / while_loop / call clear it; fast_rev2 / store / equ demand exact sizes;
   * array views (`xs[i]`) are pointers until an instruction dereferences them."""
 import z3
-from core import (Fail, Unsupported, OutOfBound, NIL, ListRef, Cell, Fn, Ptr, CellPtr, Obj, BuiltIn, list_builtin, LIST_BUILTINS, MapRef, MapPtr, Some, map_key, map_builtin, MAP_BUILTINS, is_sym, is_int, is_bool, arith, compare, negate,
+from core import (Module, Fail, Unsupported, OutOfBound, NIL, ListRef, Cell, Fn, Ptr, CellPtr, Obj, BuiltIn, list_builtin, LIST_BUILTINS, MapRef, MapPtr, Some, map_key, map_builtin, MAP_BUILTINS, is_sym, is_int, is_bool, arith, shift, compare, negate,
                   logic_not, logic, equals)
 
 SPECIAL = ("<if>", "<else>", "<while>")
@@ -29,8 +29,11 @@ class Frame:
 class Machine:
     def __init__(self, funcs, module_path, oracle, inputs, max_depth=12, max_loop=None):
         """funcs: {name: [Instr]}; inputs: {literal text -> value} (designated input literals)"""
-        self.funcs = funcs
+        # funcs: {function: code} of the entry module, or {module path: {function: code}} for a multi-module program
+        self.mods = funcs if funcs and all(isinstance(v, dict) for v in funcs.values()) else {module_path: funcs}
+        self.funcs = self.mods[module_path]
         self.path = module_path
+        self.modules = {}          # module cache: path -> Module (created when its top-level code starts, as add_file does)
         self.o = oracle
         self.inputs = inputs
         self.stack = []
@@ -90,21 +93,36 @@ class Machine:
                 return v
 
     # ---------------------------------------------------------------- one activation (Function::run)
+    def module(self, path):
+        m = self.modules.get(path)
+        if m is None:
+            m = self.modules[path] = Module(path)
+        return m
+
+    def split_loc(self, name):
+        """function value name -> (module path, function): short names belong to the entry module"""
+        if "#" in name:
+            p, f = name.split("#", 1)
+            return p, f
+        return self.path, name
+
     def run_function(self, name, args, callback):
-        code = self.funcs.get(name)
+        path, fname = self.split_loc(name)
+        code = self.mods.get(path, {}).get(fname)
         if code is None:
             raise Fail("panic", "function not found: " + name)
         self.depth += 1
         if self.depth > self.max_depth:
             raise OutOfBound("call depth")
         try:
-            return self._run(name, code, args, callback)
+            return self._run(fname, code, args, callback, path)
         finally:
             self.depth -= 1
 
-    def _run(self, name, code, args, callback):
+    def _run(self, name, code, args, callback, path=None):
         o = self.o
-        self.stack.append(Frame("%s#%s" % (self.path, name)))
+        path = path or self.path
+        self.stack.append(Frame("%s#%s" % (path, name)))
         ops = []
         ip = 0
         scopes = 0
@@ -194,9 +212,8 @@ class Machine:
                             raise Fail("make_function", nm + " is not in scope")
                         caps[nm] = c
                 loc = a[0]
-                if not loc.startswith(self.path + "#"):
-                    raise Unsupported("function in another module: " + loc)
-                ops.append(Fn(loc[len(self.path) + 1:], caps))
+                # functions of the entry module keep their short name; others carry `path#name`
+                ops.append(Fn(loc[len(self.path) + 1:] if loc.startswith(self.path + "#") else loc, caps))
             elif op == "make_vector":
                 if a:
                     ops.append(ListRef([]))
@@ -270,6 +287,34 @@ class Machine:
                 if not isinstance(mc.v, MapRef):
                     raise Fail("map_op", "not a map")
                 ops.append(MapPtr(mc.v, map_key(self.deref(key))))
+            elif op == "module_entry":
+                # Module arm of process_jump_request: a cached module is handed out, otherwise its top-level code runs now, to the end
+                mpath = a[0].split("#", 1)[0]
+                ops.clear()
+                if mpath in self.modules:
+                    ops.append(self.modules[mpath])
+                else:
+                    if mpath not in self.mods:
+                        raise Fail("module_entry", "no such file: " + mpath)
+                    self.module(mpath)
+                    rv = self.run_function(a[0], [], None)
+                    ops.append(rv)
+            elif op == "export_name":
+                c = self.find_name_in_function(a[0])
+                if c is None:
+                    raise Fail("export_name", "`%s` is not in scope and cannot be exported" % a[0])
+                ex = self.module(path).exports
+                if a[0] in ex:
+                    raise Fail("export_name", "double export")
+                ex[a[0]] = c                     # the variable's OWN cell: importers see the live variable
+            elif op == "split_lookup_store":
+                if not ops or not isinstance(ops[-1], Module):
+                    raise Fail("split_lookup_store", "expected a module at the top of the operating stack")
+                for nm in a:
+                    c = ops[-1].exports.get(nm)
+                    if c is None:
+                        raise Fail("split_lookup_store", nm + " does not exist on the module")
+                    self.stack[-1].vars[nm] = Cell(c.v)      # register_variable_local with a clone of the value
             elif op == "make_object":
                 # the object's variables are the cells of the constructor function's top frame (shared, not copied)
                 ops.append(Obj(name, dict(self.stack[-1].vars)))
@@ -289,6 +334,13 @@ class Machine:
                     continue
                 if isinstance(ob, MapRef) and a[0] in MAP_BUILTINS:
                     ops.append(BuiltIn(a[0], "map"))
+                    ip = nxt
+                    continue
+                if isinstance(ob, Module):
+                    c = ob.exports.get(a[0])
+                    if c is None:
+                        raise Fail("lookup", "`%s` is not exported" % a[0])
+                    ops.append(CellPtr(c))
                     ip = nxt
                     continue
                 if not isinstance(ob, Obj):
@@ -342,6 +394,8 @@ class Machine:
                     raise Fail("bin_op", "invalid binary operation on nil")     # no operator impl accepts Optional(None)
                 if sym in ("+", "-", "*", "/", "%"):
                     res = arith(o, sym, l, r)
+                elif sym in ("<<", ">>"):
+                    res = shift(o, sym, l, r)
                 elif sym in ("<", "<=", ">", ">="):
                     res = compare(sym, l, r)
                 elif sym == "=":
@@ -508,15 +562,13 @@ class Machine:
                         if fr.label not in SPECIAL:
                             target = fr.label
                             break
-                    if target is None or not target.startswith(self.path + "#"):
+                    if target is None:
                         raise Fail("call_self", "not run in a function")
-                    fname = target[len(self.path) + 1:]
+                    fname = target[len(self.path) + 1:] if target.startswith(self.path + "#") else target
                     cargs = list(ops)
                 elif a:
                     loc = a[0]
-                    if not loc.startswith(self.path + "#"):
-                        raise Unsupported("call into another module")
-                    fname, caps, cargs = loc[len(self.path) + 1:], None, list(ops)
+                    fname, caps, cargs = (loc[len(self.path) + 1:] if loc.startswith(self.path + "#") else loc), None, list(ops)
                 else:
                     if not ops:
                         raise Fail("call", "the local stack is empty")
@@ -578,7 +630,7 @@ class Machine:
                 while self.stack and self.stack[-1].label in SPECIAL:
                     self.stack.pop()
                 self.pop_frame()
-                return ("module",)
+                return self.module(path)
             else:
                 raise Unsupported("opcode `%s` has no summary in engine D" % op)
             ip = nxt
